@@ -155,3 +155,15 @@ func purgeDirect(r *hx.Run, cacheName, key string, params map[string]string) boo
 		return false
 	}
 }
+
+// completionsDone: how many fetch completions (Cacheable / HitForPass) have run to their end - both the store
+// write and the release of the waiters, in whichever order pike performs them
+func completionsDone(p *hx.Points) int64 {
+	m := func(a, b int64) int64 {
+		if a < b {
+			return a
+		}
+		return b
+	}
+	return m(p.Count("cacheable.saved"), p.Count("cacheable.released")) + m(p.Count("hfp.saved"), p.Count("hfp.released"))
+}
